@@ -287,6 +287,49 @@ def per_run_oracles(f, r, nsteps, mols, check_ep=True):
     return prob, stats
 
 
+JUMP_FLOOR = 1.0e-8  # eV; smaller steps in E(t) are not looked at
+
+
+def find_jumps(E):
+    """isolated steps in an otherwise smooth series E(t): [(i, J)] meaning E[i+1:] is shifted by J.
+    A step J in E shows up in the second difference of dE as (-J/2, J, -J/2)."""
+    d = np.diff(E)
+    if len(d) < 9:
+        return []
+    res = d[1:-1] - 0.5 * (d[:-2] + d[2:])
+    thr = max(JUMP_FLOOR, 30.0 * float(np.median(np.abs(res))))
+    out = []
+    for i in range(len(res)):
+        a = abs(res[i])
+        if a > thr and a >= abs(res[max(i - 1, 0)]) and a >= abs(res[min(i + 1, len(res) - 1)]):
+            out.append((i + 1, float(res[i])))
+    return out
+
+
+def bfn_crossing(member, xa, xb):
+    """does any orbital pair's beta = 0.5 R/a0 (zeta_a - zeta_b) cross the |beta| = 0.5 series/closed-form switch of
+    diat_overlap.bintgs between geometries xa and xb?  Returns a description or ''."""
+    from seqm.seqm_functions.constants import a0
+
+    mol, _ = sp.build([member], sp.make_params("AM1"))
+    zs = mol.parameters["zeta_s"].detach().numpy()
+    zp = mol.parameters["zeta_p"].detach().numpy()
+    n = len(member["species"])
+    for i in range(n):
+        for j in range(i + 1, n):
+            ra = np.linalg.norm(xa[i] - xa[j]) / a0
+            rb = np.linalg.norm(xb[i] - xb[j]) / a0
+            for zi, li in ((zs[i], "s"), (zp[i], "p")):
+                for zj, lj in ((zs[j], "s"), (zp[j], "p")):
+                    if zi <= 0 or zj <= 0:
+                        continue
+                    ba = 0.5 * ra * abs(zi - zj) - 0.5
+                    bb = 0.5 * rb * abs(zi - zj) - 0.5
+                    if ba * bb <= 0 and (ba != 0 or bb != 0):
+                        return f"atoms {i}({M.SYMBOL[member['species'][i]]} {li})-{j}({M.SYMBOL[member['species'][j]]} {lj}) at R = {0.5 * (ra + rb) * a0:.5f} A"
+    return ""
+
+
 def run_task(task):
     f = task["fam"]
     mols = _mols(f)
@@ -301,7 +344,16 @@ def run_task(task):
     out = {"error": None, "problems": prob, "stats": stats, "n": n}
     out["x"] = [r[f"h5.{k}"]["coordinates/values"][::stride].copy() for k in range(len(mols))]
     E = [r[f"h5.{k}"]["data/thermo/Ek"] + r[f"h5.{k}"]["data/thermo/Ep"] for k in range(len(mols))]
-    out["fluct"] = [float(np.abs(e - e[0]).max()) for e in E]
+    out["fluct_raw"] = [float(np.abs(e - e[0]).max()) for e in E]
+    out["fluct"] = []
+    out["jumps"] = []
+    for k, e in enumerate(E):
+        e = e.copy()
+        for i, J in find_jumps(e):
+            xk = r[f"h5.{k}"]["coordinates/values"]
+            out["jumps"].append(dict(mol=k, step=i, t=i * dt, J=J, bfn=bfn_crossing(mols[k], xk[i], xk[i + 1])))
+            e[i + 1 :] -= J
+        out["fluct"].append(float(np.abs(e - e[0]).max()))
     out["x0"] = [r[f"h5.{k}"]["coordinates/values"][0].copy() for k in range(len(mols))]
     out["v0"] = [r[f"h5.{k}"]["velocities/values"][0].copy() for k in range(len(mols))]
     if task["kind"] == "rev":
@@ -453,8 +505,22 @@ def evaluate(chk, fams, verbose=False):
                 chk.violation(_desc(f, o, k, mag, {"dt": t["dt"], "kind": t["kind"]}), f"{key} mol {k}: {msg}", replay={"fam": f})
             else:
                 print("  ", key, "mol", k, msg)
+        for j in r["jumps"]:
+            nprob += 1
+            msg = (
+                f"{key} mol {j['mol']}: total energy steps by {j['J']:.3e} eV between written steps {j['step']} and {j['step'] + 1} "
+                f"(t = {j['t']:.4f} fs) of an otherwise smooth series"
+                + (f"; the overlap B-integral series/closed-form switch |beta| = 0.5 is crossed there by {j['bfn']}" if j["bfn"] else "")
+            )
+            if chk:
+                chk.violation(
+                    _desc(f, "energy_jump", j["mol"], abs(j["J"]), {"dt": t["dt"], "kind": t["kind"], "bfn_boundary": bool(j["bfn"]), "energy_jump_in_family": True}),
+                    msg, replay={"fam": f},
+                )  # fmt: skip
+            else:
+                print("  ", msg)
         if verbose:
-            print(key, {k: f"{v:.2e}" for k, v in r["stats"].items()}, r.get("back_x"), r.get("back_v"))
+            print(key, {k: f"{v:.2e}" for k, v in r["stats"].items()}, r.get("back_x"), r.get("back_v"), r["jumps"])
     for f in fams:
         fk = _fam_key(f)
         got = byfam.get(fk, {})
@@ -468,10 +534,16 @@ def evaluate(chk, fams, verbose=False):
             chk.case(fk + "|ratios", nontrivial=True, outcome=sig, sample={"family": fk, **{k: v for k, v in meas.items() if "ratios" in k or "back" in k}})
         if verbose:
             print(fk, {k: v for k, v in meas.items() if "ratios" in k or "back" in k})
+        jumps = [j for r in got.values() for j in r["jumps"]]
+        jx = {
+            "energy_jump_in_family": bool(jumps),
+            "bfn_boundary": bool(jumps) and all(bool(j["bfn"]) for j in jumps),
+            "jump_max_eV": max([abs(j["J"]) for j in jumps], default=0.0),
+        }
         for o, k, mag, msg in prob:
             nprob += 1
             if chk:
-                chk.violation(_desc(f, o, k, mag), f"{fk} mol {k}: {msg}", replay={"fam": f})
+                chk.violation(_desc(f, o, k, mag, jx), f"{fk} mol {k}: {msg}", replay={"fam": f})
             else:
                 print("  ", fk, "mol", k, msg)
     return nprob
